@@ -64,7 +64,7 @@ func init() {
 			"c20.fault.save#1", "c20.fault.save#2+", "c20.restart.immediately", "c20.restart.at-end", "c20.restart.judged", "c20.restart.old-set", "c20.restart.new-set",
 			"c20.restart.users=0", "c20.restart.api-add-ok", "c20.fault.not-reached",
 			"c20.stop.just-acked", "c20.stop.cooling", "c20.stop.save-instant", "c20.stop.idle", "c20.stop.change-in-flight", "c20.stop.inline", "c20.stop.targeted", "c20.stop.save-after-cancel", "c20.stop.judged",
-			"c20.power.fired", "c20.power.old-or-new", "c20.power.unloadable-or-other",
+			"c20.power.fired", "c20.power.old-or-new",
 		},
 	})
 }
@@ -650,6 +650,9 @@ func (c *run) runShutdown(nInit int) {
 		opsAtCancel = fs.Ops()
 		c.in.Cancel()
 		c.in.M.Stop()
+		if s.Dead() {
+			return // the run is being torn down; Stop returned because its goroutine was ended
+		}
 		// Stop returned: the service is "stopped"
 		content, exists = fs.Visible(rig.Path)
 		hi = c.invoked
